@@ -2,6 +2,7 @@ import Pandora.Drv.Util
 import Pandora.Model.C13Ammo
 import Pandora.Model.C13Funcs
 import Pandora.Model.C13Multi
+import Pandora.Model.C13Jsonline
 import Pandora.Spec.C13
 
 /-
@@ -78,6 +79,167 @@ def ammoModel (fmt : String) (pre : Bool) (multi : Option (Nat × Nat)) (data : 
         | none => a
       some (renderRun (fmt != "raw") a)
   | _, _ => none
+
+/-! ### jsonline: what `encoding/json` makes of a file, for files written in a small safe subset of JSON
+
+Objects whose members are strings without escapes (bytes 0x20..0x7e) or - one level deep - objects of such strings,
+separated by JSON white space. `trunc` = the input ends inside a value that is well-formed so far (certainly an error of
+the decoder), `unk` = anything else (the driver abstains: the library decides). -/
+
+inductive P (α : Type) where
+  | ok (a : α) (rest : Bytes)
+  | trunc
+  | unk
+
+def jws (b : UInt8) : Bool := b == 32 || b == 9 || b == 10 || b == 13
+def skipJws (s : Bytes) : Bytes := s.dropWhile jws
+
+/-- a string, after its opening quote -/
+def pStr : Bytes → Bytes → P Bytes
+  | [], _ => .trunc
+  | b :: rest, acc =>
+    if b == 34 then .ok acc.reverse rest
+    else if 32 ≤ b && b ≤ 126 && b != 92 then pStr rest (b :: acc) else .unk
+
+/-- the members of an object, standing before a key -/
+def pMembers {α : Type} (pv : Bytes → P α) : Nat → Bytes → List (Bytes × α) → P (List (Bytes × α))
+  | 0, _, _ => .unk
+  | fuel + 1, s, acc =>
+    match skipJws s with
+    | [] => .trunc
+    | 34 :: r1 =>
+      match pStr r1 [] with
+      | .ok k r2 =>
+        match skipJws r2 with
+        | [] => .trunc
+        | 58 :: r3 =>
+          match pv (skipJws r3) with
+          | .ok v r5 =>
+            match skipJws r5 with
+            | [] => .trunc
+            | 44 :: r6 => pMembers pv fuel r6 ((k, v) :: acc)
+            | 125 :: r6 => .ok ((k, v) :: acc).reverse r6
+            | _ => .unk
+          | .trunc => .trunc
+          | .unk => .unk
+        | _ => .unk
+      | .trunc => .trunc
+      | .unk => .unk
+    | _ => .unk
+
+/-- an object, after its opening brace -/
+def pObj {α : Type} (pv : Bytes → P α) (s : Bytes) : P (List (Bytes × α)) :=
+  match skipJws s with
+  | [] => .trunc
+  | 125 :: r => .ok [] r
+  | r => pMembers pv (s.length + 1) r []
+
+inductive JV where
+  | str (s : Bytes)
+  | obj (kvs : List (Bytes × Bytes))
+
+def pvStr (s : Bytes) : P Bytes :=
+  match s with
+  | [] => .trunc
+  | 34 :: r => pStr r []
+  | _ => .unk
+
+def pvTop (s : Bytes) : P JV :=
+  match s with
+  | [] => .trunc
+  | 34 :: r => (match pStr r [] with | .ok v r' => .ok (.str v) r' | .trunc => .trunc | .unk => .unk)
+  | 123 :: r => (match pObj pvStr r with | .ok kvs r' => .ok (.obj kvs) r' | .trunc => .trunc | .unk => .unk)
+  | _ => .unk
+
+def distinctKeys {α : Type} : List (Bytes × α) → Bool
+  | [] => true
+  | (k, _) :: rest => !(rest.any fun p => p.1 == k) && distinctKeys rest
+
+def entityFields : List Bytes := [str "host", str "method", str "uri", str "tag", str "body", str "headers"]
+
+/-- what `Decode(&entity)` + `Setup` make of an object of the safe subset; `none` = the driver abstains -/
+def entityOf (kvs : List (Bytes × JV)) : Option JItem :=
+  if !distinctKeys kvs then none
+  else if kvs.any (fun p => !entityFields.contains p.1 && entityFields.contains (asciiLower p.1)) then none
+  else
+    let strOf (k : String) : Option Bytes :=
+      match kvs.find? (fun p => p.1 == str k) with
+      | none => some []
+      | some (_, .str v) => some v
+      | some (_, .obj _) => none
+    let headersOk : Bool :=
+      match kvs.find? (fun p => p.1 == str "headers") with
+      | none => true
+      | some (_, .obj hs) => distinctKeys hs && hs.all (fun p => !p.1.isEmpty && p.1.all isAlnum)
+      | some (_, .str _) => false
+    match strOf "host", strOf "method", strOf "uri", strOf "tag", strOf "body" with
+    | some host, some method, some uri, some tag, some _ =>
+      if !headersOk then none
+      else if !(method.all isAlnum) then (if method.contains 32 then some .bad else none)
+      else if host.isEmpty || !(host.all fun b => isAlnum b || b == 46 || b == 45) then none
+      else if !(uri.isEmpty || safeUri uri) then none
+      else some (.good tag)
+    | _, _, _, _, _ => none
+
+/-- the values of an object stream, standing anywhere between two values -/
+def jlStream : Nat → Bytes → List JItem → Option (List JItem)
+  | 0, _, _ => none
+  | fuel + 1, s, acc =>
+    match skipJws s with
+    | [] => some acc.reverse
+    | 123 :: r =>
+      match pObj pvTop r with
+      | .ok kvs rest =>
+        match entityOf kvs with
+        | some (.good t) => jlStream fuel rest (.good t :: acc)
+        | some .bad => some (JItem.bad :: acc).reverse
+        | none => none
+      | .trunc => some (JItem.bad :: acc).reverse
+      | .unk => none
+    | 110 :: _ => none                                -- `null` decodes into a struct without an error
+    | _ => some (JItem.bad :: acc).reverse            -- no other value decodes into a struct
+
+/-- the elements of an array, standing before an element -/
+def jlElems : Nat → Bytes → List Bytes → Option (Option (List Bytes))
+  | 0, _, _ => none
+  | fuel + 1, s, acc =>
+    match skipJws s with
+    | [] => some none
+    | 123 :: r =>
+      match pObj pvTop r with
+      | .ok kvs rest =>
+        match entityOf kvs with
+        | some (.good t) =>
+          match skipJws rest with
+          | [] => some none
+          | 44 :: r' => jlElems fuel r' (t :: acc)
+          | 93 :: _ => some (some (t :: acc).reverse)
+          | _ => none
+        | some .bad => some none
+        | none => none
+      | .trunc => some none
+      | .unk => none
+    | _ => none
+
+/-- `none` = the driver abstains -/
+def jsonlineSrc (data : Bytes) : Option JSrc :=
+  match skipJws data with
+  | [] => some .refused
+  | 123 :: _ => (jlStream (data.length + 1) data []).map .stream
+  | 91 :: r =>
+    match skipJws r with
+    | [] => some (.array none)
+    | 93 :: _ => some (.array (some []))
+    | _ => (jlElems (data.length + 1) r []).map .array
+  | _ => some .refused
+
+def jsonlineModel (pre : Bool) (multi : Option (Nat × Nat)) (data : Bytes) : Option String :=
+  match jsonlineSrc data with
+  | none => none
+  | some src =>
+    let (passes, limit) := multi.getD (1, 0)
+    let r := jsonlineRun src pre passes limit
+    if r == ctorErr then some "n=0 e= end=ctor-err:other" else some (renderRun false r)
 
 /-- grpc/json: the file's scanner lines; `none` when a line comes near the scanner's buffer size or when
 limit / passes bookkeeping (C08's subject) is involved -/
@@ -251,7 +413,12 @@ def model (kv : List (String × String)) : Option (Option String × String) := d
       if fmt == "grpcjson" || getS kv "passes" == "" then none
       else some ((getN? kv "passes").getD 1, (getN? kv "limit").getD 0)
     if multi == some (0, 0) then none
-    pure (ammoModel fmt (getS kv "pre" == "1") multi data, s!"{fmt} provider")
+    -- `hdrs=`: the `headers` option of the http provider; the first string `util.DecodeHeader` refuses makes the constructor fail
+    let hdrs ← (splitList (getS kv "hdrs")).mapM bytesOfHex
+    if fmt != "grpcjson" && hdrs.any (fun h => !(decodeHeader h).isOk) then
+      pure (some "n=0 e= end=ctor-err:hdr", s!"{fmt} provider")
+    else if fmt == "jsonline" then pure (jsonlineModel (getS kv "pre" == "1") multi data, "jsonline provider")
+    else pure (ammoModel fmt (getS kv "pre" == "1") multi data, s!"{fmt} provider")
   | "genjson" =>
     let data ← bytesOfHex (getS kv "hex")
     let passes := (getN? kv "passes").getD 1
@@ -262,6 +429,7 @@ def model (kv : List (String × String)) : Option (Option String × String) := d
       else some s!"n={r.tags.length} e={String.intercalate "," (r.tags.reverse.map hexB)} end={r.end_}"
     pure (m, "generic JSON provider")
   | "pfx" => pure (none, s!"{getS kv "fmt"} provider")
+  | "flt" => pure (none, s!"{getS kv "fmt"} provider")
   | "conf" => pure (none, "config placeholder (typed field)")
   | "hdr" =>
     let h ← bytesOfHex (getS kv "hex")
@@ -372,13 +540,17 @@ def pfxVerdict (kv : List (String × String)) (impl : String) : Option String :=
   let arrayMode := fmt == "jsonline" && (match good.dropWhile isJsonWs with | 91 :: _ => true | _ => false)
   some (pfxJudge s!"{fmt} provider" (isJson && !arrayMode && truncatedObject junk) impl)
 
+def fltVerdict (kv : List (String × String)) (impl : String) : Option String := do
+  if getS kv "k" != "flt" then none
+  some (fltJudge s!"{getS kv "fmt"} provider" (getS kv "mode") impl)
+
 def handle : Handler := fun input impl =>
   let kv := parseKV input
   match model kv with
   | none => ("-", "fail:driver:unparsable input")
   | some (m, kind) =>
     let isGrpc := getS kv "k" == "ammo" && getS kv "fmt" == "grpcjson"
-    let verdict := match (randIntVerdict kv impl).orElse (fun _ => pfxVerdict kv impl) with
+    let verdict := match ((randIntVerdict kv impl).orElse (fun _ => pfxVerdict kv impl)).orElse (fun _ => fltVerdict kv impl) with
       | some v => v
       | none =>
         if isGrpc then grpcVerdict kv ((bytesOfHex (getS kv "hex")).getD []) impl
